@@ -351,9 +351,23 @@ def _lagged(prog: Program, col: Collector, refs: Refs):
                     has_slice = any(any(y is rem_slices[0] for y in ast.walk(st_)) for st_ in branch)
                     if has_slice == no_chunk:
                         bad = bad or (D, P, "the branch for 'no complete chunk' is taken exactly when there IS one (or the reverse)")
-                    for st in branch:
+                    start_step = None
+                    for st in branch:  # in program order
                         if isinstance(st, ast.AugAssign) and isinstance(st.target, ast.Name):
                             env[st.target.id] = _ev(ast.BinOp(left=ast.Name(id=st.target.id, ctx=ast.Load()), op=st.op, right=st.value), env)
+                        elif isinstance(st, ast.Assign) and len(st.targets) == 1 and isinstance(st.targets[0], ast.Name):
+                            v_ = st.value
+                            if isinstance(v_, ast.Call) and any(k.arg is None and isinstance(k.value, ast.Dict) and len(k.value.values) == 1 for k in v_.keywords) \
+                                    and not any(y is rem_slices[0] for y in ast.walk(v_)):
+                                dct = next(k.value for k in v_.keywords if k.arg is None and isinstance(k.value, ast.Dict))
+                                start_step = _ev(dct.values[0], env)
+                            else:
+                                try:
+                                    env[st.targets[0].id] = _ev(v_, env)
+                                except _NoEval:
+                                    pass
+                    if no_chunk and start_step is not None and start_step != D - 1:
+                        bad = bad or (D, P, f"with no complete chunk the fold starts from step {start_step}, not from the last step {D - 1}")
                     if not no_chunk:
                         sel = _rng(rem_slices[0], env)
                         if sel != list(range(R, D)):
